@@ -56,10 +56,15 @@ func (m *c16Cks) Create(ctx *restli.RequestContext, entity *vt.Leaf) (*cks.Creat
 	return &cks.CreatedEntity{Id: &vt.Ck{Inner: vt.Inner{S: "made"}}}, nil
 }
 
-type c16Trs struct{ seen []vt.Tr }
+type c16Trs struct {
+	seen      []vt.Tr
+	getParams *trs.GetParams // what Get received
+	gotParams bool
+}
 
-func (m *c16Trs) Get(ctx *restli.RequestContext, trId vt.Tr) (*vt.Leaf, error) {
+func (m *c16Trs) Get(ctx *restli.RequestContext, trId vt.Tr, queryParams *trs.GetParams) (*vt.Leaf, error) {
 	m.seen = append(m.seen, trId)
+	m.getParams, m.gotParams = queryParams, true
 	return &vt.Leaf{V: "leaf-" + string(trId)}, nil
 }
 func (m *c16Trs) BatchGet(ctx *restli.RequestContext, keys []vt.Tr) (*trs.BatchEntities, error) {
@@ -197,4 +202,30 @@ func Harness_C16G_Typeref(n int) {
 	verif.Assert(res != nil && len(mt.seen) == 2, "batch get with typeref keys failed")
 	verif.Assert(len(res.Results) == 2 && res.Results[vt.Tr(s1)] != nil && res.Results[vt.Tr(s1)].V == "leaf-"+s1 && res.Results[vt.Tr(s2)] != nil && res.Results[vt.Tr(s2)].V == "leaf-"+s2, "results not filed under the caller's keys")
 	verif.Cover("correlated")
+}
+
+
+// Harness_C02G_OptionalParams (C02): a REST method whose declared parameters
+// are all optional: whichever subset the caller sets (including none), the
+// resource receives a parameter object with exactly that content.
+func Harness_C02G_OptionalParams(n int) {
+	mt := &c16Trs{}
+	_, tc, _ := c16Clients(&c16Cks{}, mt)
+	p := &trs.GetParams{}
+	if verif.Bool() {
+		s := verif.String(n)
+		p.Opt = &s
+	}
+	if verif.Bool() {
+		c := int32(7)
+		p.Cnt = &c
+	}
+	leaf, err := tc.Get(vt.Tr("k"), p)
+	verif.Assert(err == nil && leaf != nil && leaf.V == "leaf-k", "the call failed although the resource succeeded")
+	verif.Assert(mt.gotParams && len(mt.seen) == 1 && mt.seen[0] == "k", "the call did not reach the resource")
+	got := mt.getParams
+	verif.Assert(got != nil, "the resource received no parameter object although the caller passed one")
+	verif.Assert((got.Opt != nil) == (p.Opt != nil) && (got.Opt == nil || *got.Opt == *p.Opt), "optional string parameter differs")
+	verif.Assert((got.Cnt != nil) == (p.Cnt != nil) && (got.Cnt == nil || *got.Cnt == 7), "optional int parameter differs")
+	verif.Cover("fidelity")
 }
